@@ -100,6 +100,10 @@ impl<W: Write> ChunkedWriter<W> {
 
 impl<W: Write> Write for ChunkedWriter<W> {
     fn write(&mut self, buf: &[u8]) -> IoResult<usize> {
+        if buf.is_empty() {
+            // a zero-sized chunk would terminate the body
+            return Ok(0);
+        }
         write!(self.0, "{:x}\r\n", buf.len())?;
         self.0.write_all(buf)?;
         write!(self.0, "\r\n")?;
